@@ -7,6 +7,6 @@ CONSTANTS
   PBases <- MCPBases
   RspData <- MCRspData
   MaxReq = 7
-  MaxFlush = 2
+  MaxFlush = 1
 INVARIANTS ExactlyOnceDown ExactlyOnceUp PhysAddr PayloadPreserved RspToOriginal NoCrossPID NoGhost FlushEmpty
 CHECK_DEADLOCK FALSE
